@@ -11,7 +11,7 @@ EXPLANATION = (
     "dontfill argument governs nothing but the buffer's content (every piece of handle state that the flush consults is set "
     "independently of it), the buffer is marked valid only after the lookup, and dontfill is non-zero only for whole-block "
     "writes; every copy into the buffer is paired with the dirty mark and every copy out of it is preceded by position sync "
-    "and a filling load; flush writes the buffer to the mapped block, allocating or converting an unwritten extent first, "
+    "and a filling load, and every routine that returns file content limits it by i_size; flush writes the buffer to the mapped block, allocating or converting an unwritten extent first, "
     "and clears the dirty mark only after the device write succeeded; close flushes before freeing and returns the flush "
     "error; changing the size writes out and drops the buffer before the tail is zeroed and blocks are freed on disk; only "
     "the buffer routines store the cached block numbers; a block taken from the free-block search routines is marked in use "
@@ -192,6 +192,23 @@ def run(world, rep, tier, only=None):
                 ok = ln is not None and ln in sides and "blocksize" in flds
             rep.ob("C09.d", site(wr, "fill skipped only for whole-block writes#%d.%d" % (i, j)), ok,
                    "load_buffer's dontfill is 0 or `<copy length> == fs->blocksize` (copy length `%s`): %s" % (ln, T.pp(a)[:50]))
+
+    # ------------------------------------------------------------------ C09.i every read path stops at i_size
+    # sibling agreement: whichever routine copies file content to the caller limits the count by the
+    # inode's size (the inline variant gets the *capacity* of the inline area from its helper)
+    n_out = 0
+    for f in fio.values():
+        outs_ = [n for n in calls_to(f, "memcpy") if _buf_rooted(arg(n, 1) or {}) and not _buf_rooted(arg(n, 0) or {})]
+        if not outs_:
+            continue
+        n_out += 1
+        reads_size = False
+        for line, e in width._exprs_of(f):
+            if {"i_size", "i_size_high"} & T.field_names(e):
+                reads_size = True
+        rep.ob("C09.i", site(f, "returned bytes are limited by the file size"), reads_size,
+               "%s copies out of the handle's buffer and compares against EXT2_I_SIZE(&file->inode)" % f.name)
+    rep.floor("C09.i routines copying file content to the caller", n_out, 2)
 
     # ------------------------------------------------------------------ C09.e flush protocol
     fl = fio["ext2fs_file_flush"]
